@@ -123,9 +123,12 @@ fn path_src(root: &str, d: usize, f: PForm) -> String {
 
 /// (name, template around `$` = has(..) expression, maps the has result)
 /// expressions around an access `$` that hand its failure on
-const WRAPPERS: [&str; 16] = [
+const WRAPPERS: [&str; 25] = [
     "int($)", "uint($)", "double($)", "string($)", "bool($)", "bytes($)", "type($)", "size($)", "($).size()", "abs($)", "max($, 1)", "f\"{$}\"",
     "[$][0]", "{'k': $}.k", "($) + 1", "($) == 1",
+    // macros called as methods of the absent value, and an absent left operand of a failing right one
+    "($).map(e, e)", "($).filter(e, true)", "($).all(e, true)", "($).exists(e, e)", "($).exists_one(e, e)", "($).reduce(a, e, a, 0)",
+    "($) + (1 / zero)", "($) < [1][5]", "[$, 1 / zero][0]",
 ];
 
 const HAS_CTX: [&str; 9] = [
@@ -233,6 +236,7 @@ fn run_path(idx: u64, acc: &mut Acc) {
     for n in NAMES {
         b.bind_param(&format!("key_{}", n), CelValue::String(n.to_string()));
     }
+    b.bind_param("zero", CelValue::Int(0));
     if let Some(r) = &root {
         b.bind_param("r", r.to_cel());
         b.bind_param("rr", r.to_cel());
@@ -285,6 +289,12 @@ fn run_path(idx: u64, acc: &mut Acc) {
             check(acc, &format!("{} has around `{}`", site, w), &format!("has({})", inner), &bdesc, &Ok(V::Bool(false)), &b);
             check(acc, &format!("{} has around `{}` in a macro body", site, w), &format!("[1].map(i, has({}))[0]", inner), &bdesc, &Ok(V::Bool(false)), &b);
             check(acc, &format!("{} coalesce around `{}`", site, w), &format!("coalesce({}, 'dflt')", inner), &bdesc, &Ok(V::s("dflt")), &b);
+        }
+        // operands are evaluated left to right: a failure of another kind on the left comes first
+        for w in ["(1 / zero) + ($)", "[1][5] < ($)", "(1 % zero) == ($)", "size(1 / zero) + size($)"] {
+            let inner = w.replace('$', &e);
+            check(acc, &format!("{} has around `{}`", site, w), &format!("has({})", inner), &bdesc, &Err(()), &b);
+            check(acc, &format!("{} coalesce around `{}`", site, w), &format!("coalesce({}, 'dflt')", inner), &bdesc, &Err(()), &b);
         }
     }
     // the root reached through a loop variable (only when there is a root value)
